@@ -50,6 +50,14 @@ def make_library(rng, nk, float_share=0.25):
             j = rng.randrange(nops)
             op, a, b = ops[j]
             tw = list(ops)
+            if len(lib) == 1:
+                # the first pair of twins differs in the operand order of a NON-commutative operation: both routings of the same two
+                # sources exist in the merged PE and only one of them computes the kernel
+                nc = "arith.subf" if fl else "arith.subi"
+                ops[j] = (nc, a, b)
+                lib[-1] = (nin, ty, list(ops), ("t", nops - 1))
+                op = nc
+                tw = list(ops)
             tw[j] = (op, b, a)
             tkey = (nin, ty, tuple(tw))
             if a != b and tkey not in seen:
